@@ -244,6 +244,13 @@ def observe(tier):
 # --------------------------------------------------------------------------------------------------
 # oracles
 # --------------------------------------------------------------------------------------------------
+def _walk_ops(ops):
+    for op in ops:
+        yield None, op
+        if op["k"] == "nest":
+            yield from _walk_ops(op["bp"]["ops"])
+
+
 def _units(o):
     for spec in o.get("built_specs", []):
         sid = spec["id"]
@@ -331,11 +338,12 @@ def oracle_c04_scope(obs, rep, tier):
                     "scope_of_the_route" if t0_seen == r["expect_t0"] else f"other:{t0_seen}")
                 unspec[f"{r['kind']}:{r['why']}:resolved_from_{which}"] += 1
             for ty, exp, got in problems:
-                rel_e = relation(sc["shape"], sc["regs"], r["bp"], exp) if ty.startswith("T0") else "n/a"
-                rel_o = relation(sc["shape"], sc["regs"], r["bp"], got) if ty.startswith("T0") and got else str(got)
-                rep.violation(f"scope:wrong-constructor:{r['kind']}:designated={rel_e}:observed={rel_o}",
+                strip = lambda x: x.split("/")[0].split("#")[0]
+                rel_o = strip(relation(sc["shape"], sc["regs"], r["bp"], got)) if ty.startswith("T0") and got else str(got)
+                lc_exp = next((op.get("lc") for _, op in _walk_ops(spec["bp"]["ops"]) if op.get("c") == exp), "?")
+                rep.violation(f"scope:wrong-constructor:{r['kind']}:designated_is_{lc_exp}:observed={rel_o}",
                               f"{spec['id']} {req['path']}: the {r['kind']} route in blueprint {r['bp']} of tree {sc['shape']} with registrations "
-                              f"{sc['regs']} received a {ty} built by {got}; the blueprint designates {exp}",
+                              f"{sc['regs']} (lifecycles {sc['lc']}) received a {ty} built by {got}; the blueprint designates {exp}",
                               {"oracle": "C04", "spec": spec, "request": req, "route": r, "trace": resp.get("trace"),
                                "startup_trace": st.get("trace")})
     cov = {
